@@ -239,6 +239,7 @@ def gen_world(d):
     o['lio'] = d.chance(40)
     o['lio_min'] = d.choice([None, None, 0, 3, 200])
     o['rebuild'] = d.chance(25)
+    o['midblock'] = d.chance(35)      # start and mid-block comments (every one of them shows F28)
     o['theme'] = d.choice([None, None, None, None, 'dark', 'wide'])
     o['join_css'] = d.choice([None, None, None, None, None, 'all.css'])
     o['css_path'] = d.choice(['css', 'static/css']) if d.chance(20) else None
@@ -488,7 +489,7 @@ class TextGen:
             elif pg['kind'] == 'omap':
                 if self.eff_dec or not AVOID['F29']:         # F29: never converted for other-code index pages
                     anchor = '#%d' % a
-            else:
+            elif not str(a)[0].isupper():    # '#C000' in the expansion would be read as a macro named #C
                 anchor = '#%s' % a
         self._count('LINK:' + pg['kind'] + ('#' if anchor else ''))
         text = self.words(2) if d.chance(70) else ''
@@ -624,11 +625,11 @@ def render_skool(d, w, tg, code):
             if hdr >= 8:
                 lines.append(';')
                 lines.append('; %s %s' % (d.choice(['A', 'HL', 'O:BC', 'I:DE']), tg.text(cid, mw, 40, False)))
-                if d.chance(50):
+                if o['midblock'] and d.chance(50):
                     lines.append(';')
                     lines.append('; ' + tg.text(cid, mw, 50))      # start comment
         for j, ins in enumerate(e['instrs']):
-            if live and j and d.chance(15):
+            if live and j and o['midblock'] and d.chance(15):
                 lines.append('; ' + tg.text(cid, mw, 50))          # mid-block comment
                 tg._count('mid-block-comment')
             if live and d.chance(20):
@@ -643,7 +644,10 @@ def render_skool(d, w, tg, code):
                 r = d.choice([x for x in (0, 8, 16, 24, 32, 40, 48, 56) if x in op_remote or x not in remote])
                 op = op.replace('{r}', ('$%02X' % r) if code['hex'] else str(r))
             while '{n}' in op:
-                op = op.replace('{n}', str(d.int(0, 255)), 1)
+                n = d.int(0, 255)
+                while n in remote and n not in own_all and n not in op_remote:
+                    n += 1           # F30 avoided: a DEFW/LD value that happens to be a remote address
+                op = op.replace('{n}', str(n), 1)
             if code['lower']:
                 op = op.lower()
             c0 = ctl if j == 0 else ('*' if ins['ep'] else ' ')
@@ -1085,7 +1089,7 @@ def _record(rec, case, tree, prefix, known=()):
 
 
 def plan(tier, seed):
-    n = 1280 if tier == 'quick' else 32000
+    n = 2400 if tier == 'quick' else 48000
     nsh = 16 if tier == 'quick' else 64
     return [{'kind': 'hyp', 'tier': tier, 'n': n // nsh, 'seed': shard_seed(seed, PROPERTY, i)} for i in range(nsh)]
 
